@@ -405,8 +405,8 @@ impl Gen {
 
     fn client_emit(&mut self) {
         let client = self.r.below(self.prof.clients as usize) as u8;
-        let ev = ALL_CEV[self.r.below(3)];
-        let target = if ev != CEv::Ord && self.r.chance(80) || ev == CEv::Map { Some(self.slot()) } else { None };
+        let ev = ALL_CEV[self.r.weighted(&[3, 2, 3, 2, 2])];
+        let target = if matches!(ev, CEv::Map) || (ev == CEv::Trig && self.r.chance(80)) { Some(self.slot()) } else { None };
         self.steps.push(Step::ClientEmit { client, ev, target });
     }
 
@@ -474,6 +474,23 @@ impl Gen {
         }
         for chan in chans {
             if self.faults && self.en_hold && self.r.chance(if chan == Chan::Acks { 40 } else { 20 }) {
+                continue;
+            }
+            let kind = match chan {
+                Chan::CEv(CEv::Unord) => 1,
+                Chan::CEv(CEv::Unrel) => 2,
+                _ => 0,
+            };
+            if self.faults && kind != 0 && self.r.chance(60) {
+                // unordered / unreliable uplink: arbitrary order, loss on the unreliable channel
+                for _ in 0..self.r.range(1, 3) {
+                    let pick = if self.en_reorder { self.r.below(4) as u8 } else { 0 };
+                    if kind == 2 && self.en_drop && self.r.chance(25) {
+                        self.steps.push(Step::Drop { dir: Dir::C2S, client: c, chan, pick });
+                    } else {
+                        self.steps.push(Step::Deliver { dir: Dir::C2S, client: c, chan, pick });
+                    }
+                }
                 continue;
             }
             self.steps.push(Step::DeliverAll { dir: Dir::C2S, client: c, chan });
